@@ -34,7 +34,7 @@ RULE = (
     "(quick) / 0..6 (thorough). non-trivial = pair with overlapping footprints or a defined plane side; distinct = (kind, class, mode, frame)"
 )
 ASSUMPTIONS = ["positive box sizes, yaw-only rotations, finite numbers", "IoU tolerance 1e-8 absolute, distances 1e-9 + 1e-7 relative"]
-DECIDING = ["MatchingMethod.events_judged", "C06.symmetry_checked", "C06.rotation_checked", "C06.translation_checked", "C06.roi_pairs", "C06.plane_checked", "C06.derived_checked", "C06.collinear_checked"]
+DECIDING = ["MatchingMethod.events_judged", "C06.symmetry_checked", "C06.rotation_checked", "C06.translation_checked", "C06.roi_pairs", "C06.plane_checked", "C06.derived_checked", "C06.collinear_checked", "C06.result_object_checked"]
 JOBS = {"quick": 4, "thorough": 14}
 IOU_TOL = 1e-8
 
@@ -185,6 +185,14 @@ def box_pairs(ctx: Ctx, n: int) -> None:
         ctx.count("C06.symmetry_checked")
         ua.check(close(v["cd"], vs["cd"], 1e-9, 1e-9) and abs(v["iou2d"] - vs["iou2d"]) <= IOU_TOL and abs(v["iou3d"] - vs["iou3d"]) <= IOU_TOL, "C06/score_not_symmetric", dict(cls=cls, a=v, b=vs), "MatchingMethod")
         ua.check(v["iou3d"] <= v["iou2d"] + IOU_TOL, "C06/iou3d_exceeds_iou_bev", dict(cls=cls, v=v), "MatchingMethod")
+        # the scores a result object carries are those of its own pair (with the frame's transforms)
+        from perception_eval.evaluation.result.object_result import DynamicObjectWithPerceptionResult
+
+        res = DynamicObjectWithPerceptionResult(e, g, transforms=tr)
+        carried = {"cd": res.center_distance.value, "iou2d": res.iou_2d.value, "iou3d": res.iou_3d.value, "pd": res.plane_distance.value}
+        by_mode = {"cd": res.get_matching(MatchingMode.CENTERDISTANCE).value, "iou2d": res.get_matching(MatchingMode.IOU2D).value, "iou3d": res.get_matching(MatchingMode.IOU3D).value, "pd": res.get_matching(MatchingMode.PLANEDISTANCE).value}
+        ctx.count("C06.result_object_checked")
+        ua.check(carried == v and by_mode == v, "C06/result_object_carries_other_scores_than_its_pair", dict(cls=cls, frame=frame, pair=v, carried=carried, by_mode=by_mode), "MatchingMethod")
         pa, pb = G.box_corners(a[0], a[1], a[3], a[4], a[5]), G.box_corners(b[0], b[1], b[3], b[4], b[5])
         inter = G.intersection_area(pa, pb)
         if cls == "identical":
